@@ -8,7 +8,7 @@ cd "$VERIF_DIR/harness" || exit 2
 export CARGO_NET_OFFLINE=true
 case "$ID" in
   C01|C02) TARGETS="fz_roundtrip" ;;
-  C03) TARGETS="fz_decode fz_client fz_stream" ;;
+  C03) TARGETS="fz_decode fz_client fz_stream fz_history" ;;
   C05|C10|C17) TARGETS="fz_history fz_client" ;;
   C06|C07|C08|C11|C12|C13) TARGETS="fz_history" ;;
   C16) TARGETS="fz_stream" ;;
